@@ -8,6 +8,7 @@ mod ps_conc;
 mod rr;
 mod rr_conc;
 mod svcrace;
+mod bb;
 mod ws;
 
 use std::time::{Duration, Instant};
@@ -460,6 +461,45 @@ fn ps_concurrent(args: &Args, prop: &str) -> Report {
     rep
 }
 
+fn bb_campaign(args: &Args) -> Report {
+    use vkit::campaign::{campaign, Budget};
+    let seed = args.u64("seed", 1);
+    let shard = args.u64("shard", 0);
+    let b = Budget::from_args(args);
+    let ipc = args.str("svc", "local") == "ipc";
+    let mut rep = Report::new();
+    dom::install_log_capture();
+    let d = dom::Domain::new(&format!("c12p{}", shard));
+    let mut i = 0u64;
+    let mut tag = shard << 32;
+    while i < b.max_progs && !b.expired() {
+        let pi = b.only_prog.unwrap_or(i);
+        let mut rng = Rng::derive(&[seed, shard, pi, 1212]);
+        let prog = bb::Prog {
+            updates: (0..rng.range(2, 8)).map(|_| (rng.below(3) as u8, rng.below(4) as u8)).collect(),
+            readers: rng.range(1, 2) as usize,
+            reads: rng.range(3, 12) as usize,
+            contender_tries: rng.range(1, 4) as usize,
+        };
+        let desc = Json::obj().set("updates(key,style)", format!("{:?}", prog.updates)).set("readers", prog.readers).set("reads", prog.reads).set("service", if ipc { "ipc" } else { "local" });
+        let replay = format!("c12p --svc {} --seed {} --shard {} --only-prog {}", if ipc { "ipc" } else { "local" }, seed, shard, pi);
+        if i < 1 {
+            rep.sample(desc.clone());
+        }
+        campaign(&mut rep, &mut rng, &b, "C12", &desc, &replay, vkit::fnv_str(&format!("{:?}", prog)), &mut |m| {
+            tag += 1;
+            if ipc { bb::execute::<iceoryx2::service::ipc_threadsafe::Service>(&d.config, &prog, m, tag) } else { bb::execute::<iceoryx2::service::local_threadsafe::Service>(&d.config, &prog, m, tag) }
+        });
+        let _ = dom::drain_bad_logs(&[]);
+        i += 1;
+        if b.only_prog.is_some() {
+            break;
+        }
+    }
+    rep.count("programs", i);
+    rep
+}
+
 fn svc_proc_campaign(args: &Args) -> Report {
     let seed = args.u64("seed", 1);
     let shard = args.u64("shard", 0);
@@ -527,6 +567,7 @@ fn main() {
         "c20" => ws_campaign(&args),
         "c06" => svc_campaign(&args),
         "c06p" => svc_proc_campaign(&args),
+        "c12p" => bb_campaign(&args),
         "c17" => if args.str("svc", "local") == "ipc" { drops::campaign::<iceoryx2::service::ipc::Service>(&args, "ipc") } else { drops::campaign::<iceoryx2::service::local::Service>(&args, "local") },
         "c08r" => rr_campaign(&args, "C08"),
         "warmup" => return,
